@@ -1400,6 +1400,8 @@ func (c *inlCtx) tryCall(st ast.Stmt, call *ast.CallExpr, kind callKind, as *ast
 		}
 	}
 	typeOK := true
+	var curType types.Type
+	typeImports := map[string]string{}
 	qual := func(pkg *types.Package) string {
 		if pkg == c.pk.Types {
 			return ""
@@ -1410,10 +1412,24 @@ func (c *inlCtx) tryCall(st ast.Stmt, call *ast.CallExpr, kind callKind, as *ast
 			}
 			return n
 		}
+		// not imported in this file: import it under its own name when that name is free here (the declaration the
+		// type is printed for keeps the import alive; a blank declaration of the first named type does so for sure)
+		if c.needImports != nil && curType != nil {
+			if _, at := c.pk.Types.Scope().Innermost(call.Pos()).LookupParent(pkg.Name(), call.Pos()); at == nil {
+				if nt := namedFrom(curType, pkg); nt != "" {
+					typeImports[pkg.Name()] = pkg.Path() + "\tvar _ *" + pkg.Name() + "." + nt
+					return pkg.Name()
+				}
+			}
+		}
 		typeOK = false
 		return pkg.Name()
 	}
-	typeStr := func(t types.Type) string { return types.TypeString(t, qual) }
+	typeStr := func(t types.Type) string {
+		curType = t
+		defer func() { curType = nil }()
+		return types.TypeString(t, qual)
+	}
 	// ---- targets of the results
 	nres := sig.Results().Len()
 	c.counter++
@@ -1750,6 +1766,9 @@ func (c *inlCtx) tryCall(st ast.Stmt, call *ast.CallExpr, kind callKind, as *ast
 	if !typeOK {
 		c.skip(call, name, "a type needed for the inlined code is not importable by name in the caller's file")
 		return
+	}
+	for n, v := range typeImports {
+		c.needImports[n] = v
 	}
 	// returns: every return that is not the last statement of the body needs the labelled wrapper
 	label := tag + "_L"
@@ -3024,4 +3043,58 @@ func mergedInfo(a, b *packages.Package) *types.Info {
 	}
 	mergedInfoCache[key] = m
 	return m
+}
+
+// namedFrom finds a named type of package pkg inside t (its name), "" when there is none.
+func namedFrom(t types.Type, pkg *types.Package) string {
+	seen := map[types.Type]bool{}
+	var walk func(t types.Type) string
+	walk = func(t types.Type) string {
+		if t == nil || seen[t] {
+			return ""
+		}
+		seen[t] = true
+		switch x := t.(type) {
+		case *types.Named:
+			if x.Obj().Pkg() == pkg && x.TypeArgs().Len() == 0 {
+				return x.Obj().Name()
+			}
+			for i := 0; i < x.TypeArgs().Len(); i++ {
+				if r := walk(x.TypeArgs().At(i)); r != "" {
+					return r
+				}
+			}
+		case *types.Alias:
+			if x.Obj().Pkg() == pkg {
+				return x.Obj().Name()
+			}
+			return walk(types.Unalias(x))
+		case *types.Pointer:
+			return walk(x.Elem())
+		case *types.Slice:
+			return walk(x.Elem())
+		case *types.Array:
+			return walk(x.Elem())
+		case *types.Chan:
+			return walk(x.Elem())
+		case *types.Map:
+			if r := walk(x.Key()); r != "" {
+				return r
+			}
+			return walk(x.Elem())
+		case *types.Signature:
+			for i := 0; i < x.Params().Len(); i++ {
+				if r := walk(x.Params().At(i).Type()); r != "" {
+					return r
+				}
+			}
+			for i := 0; i < x.Results().Len(); i++ {
+				if r := walk(x.Results().At(i).Type()); r != "" {
+					return r
+				}
+			}
+		}
+		return ""
+	}
+	return walk(t)
 }
